@@ -3792,7 +3792,7 @@ def gen_Marshal(repo):
 def gen_CppNumeric(repo):
     files = ["engine.cpp", "SimulationAlgorithm3DBase.hpp", "SimulationAlgorithmGraphBase.hpp", "Euler3D.hpp", "EulerGraph.hpp",
              "TauLeap3D.hpp", "TauLeapGraph.hpp", "Gillespie3D.hpp", "GillespieGraph.hpp"]
-    inits, casts, floats, litdiv, narrow = [], [], [], [], []
+    inits, casts, floats, litdiv, narrow, statics = [], [], [], [], [], []
     ident = re.compile(r"[A-Za-z_]\w*")
     for f in files:
         txt = _cpp(repo, f)
@@ -3816,6 +3816,8 @@ def gen_CppNumeric(repo):
             floats.append((f, m.group(0)))
         for m in re.finditer(r"(?<![\w.])(\d+)\s*/\s*(\d+)(?![\w.])", txt):
             litdiv.append((f, re.sub(r"\s+", "", m.group(0))))
+        for m in re.finditer(r"(?<![\w])(?:static|thread_local)\b(?!_cast)[^;{}()]*", txt):
+            statics.append((f, re.sub(r"\s+", " ", m.group(0)).strip()))
         for m in re.finditer(r"numeric_limits|\bepsilon\b|\bFLT_|\bDBL_EPSILON\b|\bINT_MAX\b|\blround\b|\blrint\b|\b(?:std::)?round\s*\(|\btrunc\s*\(", txt):
             narrow.append((f, re.sub(r"\s+", "", m.group(0))))
     if not inits or not casts:
@@ -3835,6 +3837,8 @@ def gen_CppNumeric(repo):
          "def intLiteralDivisions : List (String × String) := %s\n" % lean_list(["(%s, %s)" % (lean_str(f), lean_str(t)) for f, t in litdiv]),
          "/-- tolerance / rounding vocabulary (`numeric_limits`, `epsilon`, `round(`, `trunc(`, …) -/",
          "def toleranceTokens : List (String × String) := %s\n" % lean_list(["(%s, %s)" % (lean_str(f), lean_str(t)) for f, t in narrow]),
+         "/-- every `static` / `thread_local` declaration (function-local, class-level or file-level): (file, declaration head) -/",
+         "def staticDecls : List (String × String) := %s\n" % lean_list(["(%s, %s)" % (lean_str(f), lean_str(t)) for f, t in statics]),
          "end Strengths.Gen.CppNumeric"]
     return "\n".join(L) + "\n"
 
